@@ -36,7 +36,7 @@ def swarm(prop, r, tier):
     cfg["tables2d_general"] = R.pick([0.3, 0.6])
     cfg["inf_limits"] = R.chance(0.15)
     cfg["via_file"] = R.pick([0.0, 0.0, 0.25])
-    cfg["collapse_inputs"] = prop in ("C12", "C16") and R.chance(0.03)
+    cfg["collapse_inputs"] = prop in ("C12", "C16") and R.chance(0.06)
     # nA..uA systems (everything scaled down): same laws, nanowatt losses
     cfg["micro"] = prop not in ("C03", "C18", "C17") and R.chance(0.07)
     # a random subset of kinds is disabled (swarm)
